@@ -145,16 +145,38 @@ def _temporaries_boundary(ctx, rep):
     that string itself counts as a temporary and the next expression frees it."""
     from ..algebra import lin
     readers = []
+
+    def pairs(c):
+        left = c.left
+        for op, right in zip(c.ops, c.comparators):
+            yield left, op, right
+            left = right
     for name in ('is_permanent', 'collect_garbage'):
         fn = ctx.fn(ST + ':StringSpace.' + name)
         for c in own_nodes(fn):
-            if isinstance(c, ast.Compare) and len(c.ops) == 1 and 'self._temp' in (norm(c.left), norm(c.comparators[0])) \
-                    and isinstance(c.ops[0], (ast.Gt, ast.GtE, ast.Lt, ast.LtE)):
-                strict_above = (isinstance(c.ops[0], ast.Gt) and norm(c.comparators[0]) == 'self._temp') or (isinstance(c.ops[0], ast.Lt) and norm(c.left) == 'self._temp')
-                readers.append((name, strict_above, c))
+            if not isinstance(c, ast.Compare):
+                continue
+            for left, op, right in pairs(c):
+                if 'self._temp' in (norm(left), norm(right)) and isinstance(op, (ast.Gt, ast.GtE, ast.Lt, ast.LtE)):
+                    strict_above = (isinstance(op, ast.Gt) and norm(right) == 'self._temp') or (isinstance(op, ast.Lt) and norm(left) == 'self._temp')
+                    readers.append((name, strict_above, c))
     for name, ok, c in readers:
         rep.ob('temporaries.boundary-readers', 'StringSpace.%s: permanent means addr > _temp' % name, ok, norm(c), ctx.where(c))
     rep.floor('temporaries.boundary-readers', len(readers), 2, 'comparisons with _temp')
+    # the sentinel (lowest permanent string) is never an empty string: those share their address with the newest
+    # allocated string, so re-storing one first would put the boundary above a live string
+    cgf = ctx.fn(ST + ':StringSpace.collect_garbage')
+    flc = ctx.flow(cgf)
+    picks = [a for a in own_nodes(cgf) if isinstance(a, ast.Assign) and isinstance(a.targets[0], ast.Tuple) and 'last_perm_view' in [norm(e) for e in a.targets[0].elts]]
+    rep.floor('temporaries.sentinel-not-empty', len(picks), 1, 'sentinel selections')
+    for a in picks:
+        facts = set((f.text, f.pol) for f in flc.facts(a))
+        nonempty = bool(facts & {('length > 0', True), ('length != 0', True), ('length', True), ('length == 0', False), ('not length', False), ('length >= 1', True), ('0 < length', True)})
+        rep.ob('temporaries.sentinel-not-empty', 'collect_garbage: the sentinel is chosen among strings of length > 0 only', nonempty,
+               'an empty string can become the sentinel; it shares its address with an allocated string, and after the collection that string lies below the boundary and is freed as a temporary',
+               ctx.where(a))
+        rep.ob('temporaries.sentinel-not-empty', 'collect_garbage: the sentinel is a permanent string (addr > _temp) and the lowest one (addr < last_permanent)',
+               ('addr > self._temp', True) in facts or ('self._temp < addr', True) in facts, '', ctx.where(a))
     cg = ctx.fn(ST + ':StringSpace.collect_garbage')
     ws = [a for a in own_nodes(cg) if isinstance(a, ast.Assign) and norm(a.targets[0]) == 'self._temp' and not (isinstance(a.value, ast.Constant) and a.value.value is None)]
     ok = len(ws) == 1
@@ -411,6 +433,11 @@ def variants(ctx):
            in_fn('StringSpace.collect_garbage', lambda fn: mu.replace_stmt(fn, mu.stmt_has("view[:] = struct.pack('<BH'", ast.Assign), 'self.store(string, check_free=False)')),
            expect='collector.rewrites'),
         Va('store-moves-before-check', 'break', ST, in_fn('StringSpace.store', _move_check_after), expect='store.check-before-move'),
+        Va('sentinel-may-be-empty', 'break', ST,
+           in_fn('StringSpace.collect_garbage', lambda fn: mu.replace_expr(fn, mu.text_is('self._temp is not None and length > 0'), 'self._temp is not None')),
+           expect='temporaries.sentinel-not-empty'),
+        Va('sentinel-test-chained', 'neutral', ST,
+           in_fn('StringSpace.collect_garbage', lambda fn: mu.replace_expr(fn, mu.text_is('addr > self._temp and addr < last_permanent'), 'self._temp < addr < last_permanent'))),
         Va('string-space-written-by-memory', 'break', M,
            in_fn('DataSegment.clear', lambda fn: mu.append_last(fn, 'self.strings._temp = None')), expect='owner'),
         Va('fre-ignores-arrays', 'break', M,
